@@ -120,6 +120,9 @@ class Ctx:
             out["index"] = l[idx]
             out["iter"] = list(l)[idx]
             out["len_ok"] = (len(l) == len(list(l)) == l.size)
+            # procedural membership reads the elements too: the value the list exposes is 'in' the list
+            wv = wrap(v, w, self.signed)
+            out["contains"] = wv if (wv in l) else None
         elif path in ("solve", "l_solve"):
             # the value is written by the solver: pinned through an inline constraint (v is in the field's type)
             from ..model import flat
